@@ -1,6 +1,8 @@
 package main
 
 import (
+	"fmt"
+	"sort"
 	"go/ast"
 	"go/constant"
 	"go/types"
@@ -12,7 +14,7 @@ import (
 func init() { props["C22"] = checkC22 }
 
 func checkC22(r *Run) {
-	r.Explain = "(R1+) in the read loop every successful append to the connection buffer is followed by decodeData before the next read, and every frame decodeData returns is offered to the message channel in order; C22: (R1) decodeData consumes a frame only after: length prefix decoded, 4 <= length <= max, the whole frame is buffered; every consumed frame is copied into a fresh slice filled by a successful Read and appended; every non-error return hands back the accumulated frames (none consumed is dropped); the loop runs while more than a prefix is buffered; an invalid length is the only disconnect reason; (R2) convertToMessage succeeds only for a known id, a body that decodes, and no trailing bytes, and its rejections are exactly the four documented disconnect reasons; deserialization runs under a deferred recover; (R3) the 12 registered message types have distinct 4-byte prefixes, implement gnet.Message, decode with their generated codec (or carry no body) and are dispatched asynchronously; (R4) bounds of the slices over received bytes."
+	r.Explain = "(R4+) every slice/index expression in the message handlers that run on the event loop (process methods, IntroductionMessage.Verify, onMessageEvent) is in bounds; (R1+) in the read loop every successful append to the connection buffer is followed by decodeData before the next read, and every frame decodeData returns is offered to the message channel in order; C22: (R1) decodeData consumes a frame only after: length prefix decoded, 4 <= length <= max, the whole frame is buffered; every consumed frame is copied into a fresh slice filled by a successful Read and appended; every non-error return hands back the accumulated frames (none consumed is dropped); the loop runs while more than a prefix is buffered; an invalid length is the only disconnect reason; (R2) convertToMessage succeeds only for a known id, a body that decodes, and no trailing bytes, and its rejections are exactly the four documented disconnect reasons; deserialization runs under a deferred recover; (R3) the 12 registered message types have distinct 4-byte prefixes, implement gnet.Message, decode with their generated codec (or carry no body) and are dispatched asynchronously; (R4) bounds of the slices over received bytes."
 	r.NotDec = "delivery order under arbitrary chunkings as a history property (the per-call structural conditions above are necessary for it)"
 	const dd = "daemon/gnet.decodeData"
 	fn := r.fn("C22-R1", dd)
@@ -215,6 +217,18 @@ func checkC22(r *Run) {
 	}
 	// R4
 	boundObligations(r, "C22-R4", dd, "daemon/gnet.convertToMessage")
+	// what runs on the daemon event loop with the decoded message (outside deserializeMessage's recover):
+	// every slice/index expression of the message handlers is in bounds
+	var handlers []string
+	for _, f := range r.P.ModFns {
+		n := FnName(f)
+		if strings.HasPrefix(n, "daemon.") && f.Parent() == nil && f.Signature.Recv() != nil && (f.Name() == "process" || f.Name() == "Verify" && strings.Contains(n, "IntroductionMessage")) {
+			handlers = append(handlers, n)
+		}
+	}
+	sort.Strings(handlers)
+	boundObligations(r, "C22-R4", append(handlers, "daemon.Daemon.onMessageEvent")...)
+	r.Check("C22-R4", "message handlers scanned for bounds", "", len(handlers) >= 12, fmt.Sprint(len(handlers)))
 	// the bytes just appended to the connection buffer are decoded (and complete frames delivered) before the
 	// loop reads again: delivery does not depend on how the stream was split into reads
 	r.RequireBetween("C22-R1", "daemon/gnet.ConnectionPool.readLoop", "bytes.Buffer.Write", "daemon/gnet.decodeData", "daemon/gnet.readData", "every successful append to the connection buffer is followed by decodeData before the next read")
